@@ -22,13 +22,25 @@
   `C02_calinfo_domains` shows that what `cal_info` produces lies inside those domains — except
   week 53 of %W/%U (known finding F-C02-week53, witness below).
 
-  PARTIAL: the composition of the parts over a whole pattern (literal separators, adjacency of
-  fixed-width parts, nested optional groups) is validated by the correspondence ops
-  format/parse and the render→parse→re-render oracle of harness/props/c02.py, not proved here.
+  THE COMPOSITION over a whole pattern (literal separators, adjacency, nested optional groups,
+  omission of all-zero groups, the `parse_field_values_to_vinfo` / `_to_cinfo` read-back) is
+  proved at the end of this file on the pattern TREE (`Pat`, Model/PatAst.lean): for every
+  well-formed tree and every record in the domain of its rendered parts the rendered text is
+  consumed IN FULL by the first success of the compiled regex, the group dictionary is exactly
+  the rendered part texts, the record read back agrees on every part, and rendering it again
+  gives the same text (`C02_roundtrip_ast`, `C02_roundtrip_of_date`).
+
+  PARTIAL in one respect only: bumpver compiles and renders by STRING SURGERY on the pattern
+  text, not through a tree.  That the string pipeline (`compileRe`, `formatVersion`: the faithful
+  model of the code, itself tied to the code by the ops compile_search/format/parse) and the tree
+  (`tokenize`, `Pat.compile`, `Pat.render`) agree is proved by kernel evaluation for the README's
+  example patterns (`C02_readme_tree_tie`) and CHECKED per generated pattern by the driver op
+  `ast_tie` on every run; a general proof of that string-level parser is future work.
 -/
 import BumpverVerif.Model.V2Version
 import BumpverVerif.Proofs.Digits
 import BumpverVerif.Proofs.PartLemmas
+import BumpverVerif.Proofs.ReadBack
 namespace BV
 
 /-- the compiled recogniser of a part, from the generated table -/
@@ -184,5 +196,89 @@ theorem C02_calinfo_domains (y m d : Nat) (hv : validDate y m d = true) :
 theorem C02_inc1_positive (fs : List Str) (old cur new : VInfo) (fl : IncrFlags)
     (h1 : 1 ≤ cur.inc1) (h : incrNumeric fs old cur fl = .ok new) : 1 ≤ new.inc1 := by
   exact incrNumeric_inc1_pos fs old cur new fl h1 h
+
+/-! ## The composition over whole patterns (pattern tree) -/
+
+/-- ACCEPTED IN FULL: for every well-formed pattern tree (`Pat.wf`: every variable-width numeric part is
+    followed by a non-digit, an omitted optional group cannot be confused with what follows it) and every
+    record inside the domain of the parts that are rendered (`Pat.vok`), `re.match` of the compiled regex
+    on the rendered text consumes ALL of it and its named groups are exactly the rendered part texts. -/
+theorem C02_accepted_in_full (p : Pat) (v : VInfo) (r : Re) (hwf : Pat.wf p FSet.endOnly = true)
+    (hv : Pat.vok v p = true) (hr : Pat.compile p = some r) :
+    reMatch r (Pat.render v p) =
+      some { start := 0, stop := (Pat.render v p).length, caps := (Pat.caps v p).reverse } :=
+  compose_match v p r hwf hv hr
+
+/-- THE ROUND TRIP: the rendered text is read (`parse_version_info` after compilation: first match, full
+    length, `parse_field_values_to_vinfo`) as a record `v'` that agrees with `v` on EVERY part of the
+    pattern (`Pat.agree`: same part texts, omitted groups all-zero again), and rendering `v'` reproduces the
+    text.  Hypotheses: the record is tag/pytag-coherent (`tagCoh`, an invariant of every record that was read
+    or bumped: `parseVinfo_tagCoh`, `incrNumeric_tagCoh`; without it the statement is FALSE, see `tagCoh`)
+    and its calendar fields read back (`CalReadsBack`; discharged for every record whose calendar is
+    `cal_info(date)` by `C02_roundtrip_of_date`). -/
+theorem C02_roundtrip_ast (p : Pat) (v : VInfo) (r : Re) (today : Nat × Nat × Nat)
+    (hwf : Pat.wfTop p = true) (hv : Pat.vok v p = true) (htc : tagCoh v = true)
+    (hc : CalReadsBack p v today) (hr : Pat.compile p = some r) :
+    ∃ v', parseWithRe r (Pat.render v p) today = .ok v' ∧ Pat.agree v v' p = true ∧
+      Pat.render v' p = Pat.render v p :=
+  roundtrip_ast p v r today hwf hv htc hc hr
+
+/-- the round trip for "every version state reachable by bumping": the calendar of a bumped record is
+    `cal_info` of the bump date.  `calAnchored` excludes patterns whose only calendar parts are
+    WW / UU / Q (for those `parse_field_values_to_cinfo` falls back to TODAY when the week is 0). -/
+theorem C02_roundtrip_of_date (p : Pat) (v : VInfo) (r : Re) (today : Nat × Nat × Nat) (y m d : Nat)
+    (hd : validDate y m d = true) (hcal : v.cal = (calInfo y m d).toOpt)
+    (hwf : Pat.wfTop p = true) (hv : Pat.vok v p = true) (htc : tagCoh v = true)
+    (ha : Pat.calAnchored p = true) (hr : Pat.compile p = some r) :
+    ∃ v', parseWithRe r (Pat.render v p) today = .ok v' ∧ Pat.agree v v' p = true ∧
+      Pat.render v' p = Pat.render v p :=
+  roundtrip_ast p v r today hwf hv htc (calReadsBack_of_date p v today y m d hd hcal hwf hv ha) hr
+
+/-- the coherence hypothesis is an invariant: every record that was READ satisfies it, and `_incr_numeric`
+    preserves it — so "the version announced by one run is a legal current version for the next run" chains -/
+theorem C02_tagCoh_invariant :
+    (∀ (fv : FVals) (today : Nat × Nat × Nat) (v : VInfo), parseVinfo fv today = .ok v → tagCoh v = true) ∧
+    (∀ (fs : List Str) (old cur : VInfo) (fl : IncrFlags) (new : VInfo), tagCoh cur = true →
+      incrNumeric fs old cur fl = .ok new → tagCoh new = true) :=
+  ⟨fun fv today v h => parseVinfo_tagCoh fv today v h,
+   fun fs old cur fl new hc h => incrNumeric_tagCoh fs old cur new fl hc h⟩
+
+/-- the README's example patterns -/
+def readmePatterns : List String := [
+  "MAJOR.MINOR.PATCH[PYTAGNUM]", "MAJOR.MINOR[.PATCH[PYTAGNUM]]", "YYYY.BUILD[PYTAGNUM]", "YYYY.BUILD[-TAG]",
+  "YYYY.INC0[PYTAGNUM]", "YYYY0M.PATCH[-TAG]", "YYYY0M.BUILD[-TAG]", "YYYY.0M", "YYYY.MM", "YYYY.WW",
+  "YYYY.MM.PATCH[PYTAGNUM]", "YYYY.0M.PATCH[PYTAGNUM]", "YYYY.MM.INC0", "YYYY.MM.DD", "YYYY.0M.0D", "YY.0M.0D",
+  "vYYYY0M.BUILD[-TAG]", "vMAJOR.MINOR.PATCH[-TAGNUM]"]
+
+set_option maxRecDepth 100000 in
+/-- NON-VACUITY and scope: every README example pattern tokenises to a tree that satisfies the hypotheses
+    of the round-trip theorems -/
+theorem C02_readme_patterns_wf :
+    readmePatterns.all (fun s => match tokenize s.toList with
+      | some p => p.wfTop && p.calAnchored
+      | none => false) = true := by
+  decide +kernel
+
+set_option maxRecDepth 100000 in
+/-- THE TIE between the tree and the string pipeline (the faithful model of the code) for the README's
+    patterns: the tree compiles to EXACTLY the regex `_compile_pattern_re`'s string surgery produces
+    (kernel-evaluated; for every other generated pattern the driver op `ast_tie` checks this, and the
+    equality of the two renderers, on every run) -/
+theorem C02_readme_tree_tie :
+    readmePatterns.all (fun s => match tokenize s.toList with
+      | some p => (match p.compile, compileRe s.toList with
+        | some a, some b => Re.beq a b
+        | _, _ => false)
+      | none => false) = true := by
+  decide +kernel
+
+/-- a concrete record in the domain: v2024.0013-beta under `vYYYY.BUILD[-TAG]` (hypotheses satisfiable) -/
+example :
+    let v : VInfo := { cal := (calInfo 2024 3 9).toOpt, major := 0, minor := 0, patch := 0, bid := "0013".toList,
+                       tag := "beta".toList, pytag := "b".toList, num := 0, inc0 := 0, inc1 := 1 }
+    (match tokenize "vYYYY.BUILD[-TAG]".toList with
+     | some p => p.wfTop && p.vok v && p.calAnchored && tagCoh v && (p.render v == "v2024.0013-beta".toList)
+     | none => false) = true := by
+  decide +kernel
 
 end BV
